@@ -43,3 +43,9 @@ package isaac
 //@   prop C06
 //@   ensures [fields] r1 == nil ==> r0.StagePoint == point && r0.isMajority == isMajority && r0.isSuffrageConfirm == isSuffrageConfirm
 //@   ensures [sc-only-init] r1 == nil && isSuffrageConfirm ==> point.stage == "INIT"
+
+// ---- functions deliberately not followed (their effect is "anything reachable") ----
+
+//@ func BlockItemReadersDecode
+//@   trusted
+//@   modifies *
